@@ -31,6 +31,7 @@ macro_rules! dispatch {
             "C12" => $f(&props::c12::C12, $($args),*),
             "C18" => $f(&props::c18::C18, $($args),*),
             "C03" => $f(&props::c03::C03, $($args),*),
+            "C19" => $f(&props::c19::C19, $($args),*),
             other => {
                 eprintln!("unknown property {}", other);
                 2
